@@ -198,6 +198,8 @@ func (c *sevValidateCommand) runE(cmd *cobra.Command, args []string) error {
 				BasePolicy:       s.basePolicy,
 				RootsOfTrust:     rot,
 				TestonlyForceGCS: c.testonlyForceGCS,
+
+				ExpectedLaunchVmsas: s.launchVmsas,
 			})
 	}
 
